@@ -114,6 +114,25 @@ def enumerate_cases(tier):
                                 vals = [v / 4.0 for v in vals]
                             yield "diff-grid", {"mode": "diff", "spec": {"dims": dims, "labels": labs, "vk": vk, "vals": vals}, "ax": nd - 1,
                                                 "axis_form": "name", "scheme": scheme, "n": n, "keepaxis": keep}
+    # arg-extrema along an axis whose int labels are a permutation of the positions 0..n-1 (labels that are valid positions but
+    # differ from them): every permutation of range(4) x argmin / argmax x operated axis first / last x where the extremum sits
+    import itertools
+    for perm in itertools.permutations(range(4)):
+        for op in ("argmin", "argmax"):
+            for ax in (0, 1):
+                for shift in (0, 1):
+                    other = ["a", "b", "c"]
+                    dims = ["t", "y"] if ax == 0 else ["y", "t"]
+                    labs = [list(perm), other] if ax == 0 else [other, list(perm)]
+                    grid = np.zeros((4, 3))
+                    for j in range(3):
+                        for i in range(4):
+                            grid[i, j] = ((i + j + shift) * 5) % 4 + 0.25 * j      # the extremum of column j sits at a position depending on j
+                    if op == "argmax":
+                        grid = -grid
+                    vals = (grid if ax == 0 else grid.T).ravel().tolist()
+                    yield "arg-along-permuted-range-labels", {"mode": "arg", "spec": {"dims": dims, "labels": labs, "vk": "f", "vals": vals}, "ax": ax, "op": op,
+                                                               "axis_form": "name" if shift else "pos", "skipna": False}
 
 
 # ----------------------------------------------------------------------------------------------
